@@ -12,8 +12,9 @@ instruction's definition).  Entry points:
     rank-deficient, zero, NaN, non-square;
   * qclib.isometry.decompose (ccd/knill/csd): non-orthonormal columns, wide, non-power-of-two shapes whose columns
     ARE orthonormal (so only the shape test can reject them);
-  * the one-qubit controlled gates that call check_u2 (Mcg, Ldmcu, Qdmcu, MCU), constructor and static entry point,
-    0..4 controls, with/without ctrl_state: scaled / singular / non-orthogonal / wrong-shape matrices.
+  * the one-qubit controlled gates that call check_u2 (Mcg, Ldmcu, Qdmcu, MCU) and the two SU(2) gates (Ldmcsu,
+    LdMcSpecialUnitary), constructor and static entry point, 0..4 controls, with/without ctrl_state: scaled /
+    singular / non-orthogonal / determinant-one-but-not-unitary / wrong-shape matrices.
 BdspInitialize / DcspInitialize (ancilla trees, not n-qubit gates) are outside the property's scope.
 """
 import warnings
@@ -117,6 +118,12 @@ def call_entry(e, data):
                 g = Ldmcu(m, k, ctrl_state=cs)
             elif name == "Qdmcu":
                 g = Qdmcu(m, k, ctrl_state=cs)
+            elif name == "Ldmcsu":
+                from qclib.gates.ldmcsu import Ldmcsu
+                g = Ldmcsu(m, k, ctrl_state=cs)
+            elif name == "LdMcSpecialUnitary":
+                from qclib.gates.ldmcsu import LdMcSpecialUnitary
+                g = LdMcSpecialUnitary(m, k, ctrl_state=cs)
             else:
                 g = MCU(m, k, e["error"], ctrl_state=cs)
             _ = g.definition.num_qubits
@@ -129,6 +136,12 @@ def call_entry(e, data):
             Ldmcu.ldmcu(qc, m, ctr, tgt, ctrl_state=cs)
         elif name == "Qdmcu":
             Qdmcu.qdmcu(qc, m, ctr, tgt, ctrl_state=cs)
+        elif name == "Ldmcsu":
+            from qclib.gates.ldmcsu import Ldmcsu
+            Ldmcsu.ldmcsu(qc, m, ctr, tgt, ctrl_state=cs)
+        elif name == "LdMcSpecialUnitary":
+            from qclib.gates.ldmcsu import LdMcSpecialUnitary
+            LdMcSpecialUnitary.ldmcsu(qc, m, ctr, tgt, ctrl_state=cs)
         else:
             MCU.mcu(qc, m, ctr, tgt, e["error"], ctrl_state=cs)
         _force(qc)
@@ -146,23 +159,52 @@ def describe(e):
     return f"{e['class']}(num_controls={e['num_controls']}, ctrl_state={e['ctrl_state']!r}, via {e['via']})"
 
 
+import contextlib
+import os
+import sys
+
+
+@contextlib.contextmanager
+def quiet_stderr():
+    """Rust panics print to the process's stderr (fd 2) before they become Python exceptions: keep the run silent"""
+    try:
+        sys.stderr.flush()
+        saved = os.dup(2)
+        devnull = os.open(os.devnull, os.O_WRONLY)
+    except OSError:
+        yield
+        return
+    try:
+        os.dup2(devnull, 2)
+        yield
+    finally:
+        os.dup2(saved, 2)
+        os.close(saved)
+        os.close(devnull)
+
+
 def eval_case(ctx, e, data, fam, detail):
     """True iff the malformed input is rejected by an exception."""
-    how = "accepted a malformed input without raising"
     try:
-        call_entry(e, data)
+        with quiet_stderr():
+            call_entry(e, data)
     except Exception:  # noqa: BLE001  (any exception is a rejection)
         return True
     except (KeyboardInterrupt, SystemExit):
         raise
-    except BaseException as ex:  # noqa: BLE001  pyo3 PanicException: the input passed every validator and crashed Rust code
-        how = f"was not rejected by any validator and crashed inside compiled code ({type(ex).__name__})"
+    except BaseException as ex:  # noqa: BLE001
+        # pyo3 PanicException (derives from BaseException): the input passed every Python-side validator and made
+        # Qiskit's Rust code panic.  No circuit is returned and an exception does propagate, which is what the
+        # property text asks for; it is recorded in the evidence because `except Exception` does not catch it.
+        ctx.monitor("rejected_only_by_rust_panic")
+        ctx.note(f"{e.get('class') or e['kind']}: {fam} ({detail}) is rejected only by a Rust panic ({type(ex).__name__})")
+        return True
     case = dict(e)
     case["family"] = fam
     case["detail"] = detail
     case["data"] = enc(data)
     case["function"] = describe(e)
-    ctx.violation(f"{describe(e)} {how}: {fam} ({detail})", case)
+    ctx.violation(f"{describe(e)} accepted a malformed input without raising: {fam} ({detail})", case)
     return False
 
 
@@ -381,8 +423,14 @@ def bad_u2(rng, base=None):
     yield "zero_matrix", "zeros", np.zeros((2, 2), dtype=complex)
     yield "singular", "projector |0><0|", np.array([[1, 0], [0, 0]], dtype=complex)
     yield "singular", "all ones / 2", np.ones((2, 2), dtype=complex) / 2
-    yield "non_orthogonal", "shear [[1,1],[0,1]]", np.array([[1, 1], [0, 1]], dtype=complex)
-    yield "non_orthogonal", "det 1 but not unitary diag(2, 1/2)", np.diag([2.0, 0.5]).astype(complex)
+    # determinant one, not unitary (a test of the determinant alone cannot reject these)
+    yield "det1_not_unitary", "shear [[1,1],[0,1]]", np.array([[1, 1], [0, 1]], dtype=complex)
+    yield "det1_not_unitary", "diag(2, 1/2)", np.diag([2.0, 0.5]).astype(complex)
+    t = float(rng.uniform(1.2, 3.0))
+    d = np.linalg.det(u)
+    yield "det1_not_unitary", "SU(2)-normalised unitary times diag(t, 1/t)", (u / np.sqrt(d)) @ np.diag([t, 1 / t]).astype(complex)
+    g = rng.normal(size=(2, 2)) + 1j * rng.normal(size=(2, 2))
+    yield "det1_not_unitary", "random SL(2,C) matrix", g / np.sqrt(np.linalg.det(g))
     w = u.copy()
     w[:, 1] = unit(w[:, 1] + 0.1 * w[:, 0])
     yield "non_orthogonal", "unit columns with overlap 0.1", w
@@ -456,9 +504,15 @@ def evaluate(ctx, deep):
                 e = {"kind": "isometry", "scheme": scheme, "n": None, "m": None}
                 ctx.count(f"isometry:{fam}", key=("is", scheme, fam, a.tobytes()), nontrivial=True)
                 eval_case(ctx, e, a, fam, detail)
-    # ---- one-qubit controlled gates calling check_u2 ------------------------------------------------
-    for cname in ("Mcg", "Ldmcu", "Qdmcu", "MCU"):
-        if cname == "MCU":
+    # ---- one-qubit controlled gates (check_u2 callers, and the two SU(2) gates) -------------------------------
+    for cname in ("Mcg", "Ldmcu", "Qdmcu", "MCU", "Ldmcsu", "LdMcSpecialUnitary"):
+        if cname in ("Ldmcsu", "LdMcSpecialUnitary"):
+            # base matrix in SU(2), so that the valid base itself is accepted
+            plans = []
+            for k in range(1, (6 if deep else 4) + 1):
+                b = haar(rng, 2)
+                plans.append((k, "su2", b / np.sqrt(np.linalg.det(b)), None))
+        elif cname == "MCU":
             plans = [(k, bname, base, err) for (bname, base, err, ks) in MCU_CONFIGS for k in ks if deep or k <= 5]
         else:
             plans = [(k, "haar", None, None) for k in range(0, (6 if deep else 4) + 1) if not (cname == "Qdmcu" and k == 0)]
@@ -474,7 +528,7 @@ def evaluate(ctx, deep):
                                  "error": err, "base": bname,
                                  "up_to_diagonal": bool(rng.integers(2)) if cname == "Mcg" else False}
                             ctx.count(f"{cname}:{fam}", key=("g", cname, k, cs, via, fam, m.tobytes()), nontrivial=True,
-                                      sample={"class": cname, "num_controls": k, "detail": detail} if (k == 2 and fam == "non_orthogonal" and cs is None) else None)
+                                      sample={"class": cname, "num_controls": k, "detail": detail} if (k == 2 and fam == "det1_not_unitary" and cs is None) else None)
                             eval_case(ctx, e, m, fam, detail)
 
 
@@ -502,6 +556,12 @@ def sanity(ctx):
             for k, cs in ((1, None), (2, None), (3, "010")):
                 checks.append(({"kind": "u2gate", "class": cname, "num_controls": k, "ctrl_state": cs, "via": via,
                                 "error": None, "up_to_diagonal": False}, haar(rng, 2)))
+    for cname in ("Ldmcsu", "LdMcSpecialUnitary"):
+        for via in ("constructor", "static"):
+            for k, cs in ((1, None), (2, None), (3, "010")):
+                b = haar(rng, 2)
+                checks.append(({"kind": "u2gate", "class": cname, "num_controls": k, "ctrl_state": cs, "via": via,
+                                "error": None, "up_to_diagonal": False}, b / np.sqrt(np.linalg.det(b))))
     for (bname, base, err, ks) in MCU_CONFIGS:
         for k in ks:
             for via in ("constructor", "static"):
